@@ -977,7 +977,11 @@ func rwGen(r *rand.Rand, n int, emit func(core.Case)) {
 			ctl = append(ctl, []any{1 + r.IntN(2*steps), 1 + r.IntN(3)})
 		default:
 			k1 := 1 + r.IntN(2*steps)
-			ctl = append(ctl, []any{k1, 1 + r.IntN(3)}, []any{k1 + 1 + r.IntN(2*steps), 1 + r.IntN(4)})
+			k2 := k1 + 1 + r.IntN(2*steps)
+			if r.IntN(2) == 0 {
+				k2 = k1 + 1 + r.IntN(2) // while the first value unwinds
+			}
+			ctl = append(ctl, []any{k1, 1 + r.IntN(3)}, []any{k2, 1 + r.IntN(4)})
 		}
 		stable, cb := 1, 0
 		if r.IntN(3) == 0 {
